@@ -607,6 +607,29 @@ func (fa *FA) genCandidates() {
 					fa.addCand(m, nil, ineqLE(fa.ptrExpand(fa.spanP).add(x), fa.expand(fa.spanE)), "span")
 				}
 				if isLoop {
+					// two quantities that move together or against each other (a count-down of what is missing and the
+					// length that grows): their difference / sum keeps its entry value
+					if ea := fa.entryLin(a); ea != nil {
+						for _, b := range phis {
+							if b == a || !(b.Kind == aVal || b.Kind == aCell || b.Kind == aLen) {
+								continue
+							}
+							if b.Kind != aLen && b.ID <= a.ID {
+								continue // each unordered pair once (lengths never stand on the left)
+							}
+							eb := fa.entryLin(b)
+							if eb == nil {
+								continue
+							}
+							y := linAtom(b.ID)
+							for _, pair := range [][2]*Lin{{x.sub(y), ea.sub(eb)}, {x.add(y), ea.add(eb)}} {
+								if fa.okForInv(m, pair[0], pair[1]) {
+									fa.addCand(m, nil, ineqLE(pair[0], pair[1]), "moves together")
+									fa.addCand(m, nil, ineqGE(pair[0], pair[1]), "moves together")
+								}
+							}
+						}
+					}
 					if x0, ok := fa.entryConst(a); ok {
 						for _, b := range phis {
 							if b.ID <= a.ID || !(b.Kind == aVal || b.Kind == aCell) {
@@ -884,6 +907,32 @@ func (fa *FA) addGoalCands(goal *Lin, b *ssa.BasicBlock, c *pctx, depth int) boo
 		break // deepest block only
 	}
 	return added
+}
+
+// entryLin returns the value a loop phi starts from (on its single non-back edge), if it is not a constant
+// handled by entryConst and is expressed over atoms that do not change in the loop.
+func (fa *FA) entryLin(a *Atom) *Lin {
+	if a.Phi == nil {
+		return nil
+	}
+	m := a.Phi.Block
+	var v *Lin
+	loop := false
+	for i, p := range m.Preds {
+		if m.Dominates(p) {
+			loop = true
+			continue
+		}
+		in := a.Phi.In(i)
+		if v != nil && !v.equal(in) {
+			return nil
+		}
+		v = in
+	}
+	if !loop || v == nil {
+		return nil
+	}
+	return v
 }
 
 // entryConst returns the constant a loop phi starts from (its value on the
